@@ -8,6 +8,7 @@ mod ops;
 mod pair;
 mod props;
 mod report;
+mod sched;
 mod snapshot;
 mod tree;
 
